@@ -73,7 +73,14 @@ func main() {
 			fmt.Fprintf(os.Stderr, "simrun: %v\n", err)
 			os.Exit(2)
 		}
-		o := engine.RunOnce(s, rf.Tier, rf.RunSeed, rf.Plan, rf.Sched, true, true)
+		var o engine.Outcome
+		if rf.FromSeed {
+			// a hang/death record: the tapes were never captured, regenerate them from the seed
+			o = engine.RunOnce(s, rf.Tier, rf.RunSeed, nil, nil, false, true)
+			rf.EventHash = fmt.Sprintf("%016x", o.Hash)
+		} else {
+			o = engine.RunOnce(s, rf.Tier, rf.RunSeed, rf.Plan, rf.Sched, true, true)
+		}
 		res := map[string]any{"property": s.ID, "event_hash": fmt.Sprintf("%016x", o.Hash), "expected_hash": rf.EventHash,
 			"violation": o.Viol, "expected_violation": rf.Violation, "trace": o.Trace, "case": o.Sample}
 		if o.HarnessPanic != "" {
